@@ -21,6 +21,15 @@ type SrvReqOps interface {
 	Wstat(*SrvReq)
 }
 
+// Reports whether a response to the request was already produced. The reply
+// buffer then belongs to the send goroutine: a second answer must not touch it.
+func (req *SrvReq) responded() bool {
+	req.Lock()
+	r := (req.status & reqResponded) != 0
+	req.Unlock()
+	return r
+}
+
 // Packs an Rerror into the reply buffer. If the text does not fit (the
 // client negotiated a tiny msize), as much of it as fits is sent.
 func (req *SrvReq) packRerror(ename string, ecode uint32) {
@@ -42,6 +51,10 @@ func (req *SrvReq) packRerror(ename string, ecode uint32) {
 
 // Respond to the request with Rerror message
 func (req *SrvReq) RespondError(err interface{}) {
+	if req.responded() {
+		return
+	}
+
 	switch e := err.(type) {
 	case *Error:
 		req.packRerror(e.Error(), uint32(e.Errornum))
@@ -56,6 +69,10 @@ func (req *SrvReq) RespondError(err interface{}) {
 
 // Respond to the request with Rversion message
 func (req *SrvReq) RespondRversion(msize uint32, version string) {
+	if req.responded() {
+		return
+	}
+
 	err := PackRversion(req.Rc, msize, version)
 	if err != nil {
 		req.RespondError(err)
@@ -66,6 +83,10 @@ func (req *SrvReq) RespondRversion(msize uint32, version string) {
 
 // Respond to the request with Rauth message
 func (req *SrvReq) RespondRauth(aqid *Qid) {
+	if req.responded() {
+		return
+	}
+
 	err := PackRauth(req.Rc, aqid)
 	if err != nil {
 		req.RespondError(err)
@@ -76,6 +97,10 @@ func (req *SrvReq) RespondRauth(aqid *Qid) {
 
 // Respond to the request with Rflush message
 func (req *SrvReq) RespondRflush() {
+	if req.responded() {
+		return
+	}
+
 	err := PackRflush(req.Rc)
 	if err != nil {
 		req.RespondError(err)
@@ -86,6 +111,10 @@ func (req *SrvReq) RespondRflush() {
 
 // Respond to the request with Rattach message
 func (req *SrvReq) RespondRattach(aqid *Qid) {
+	if req.responded() {
+		return
+	}
+
 	err := PackRattach(req.Rc, aqid)
 	if err != nil {
 		req.RespondError(err)
@@ -96,6 +125,10 @@ func (req *SrvReq) RespondRattach(aqid *Qid) {
 
 // Respond to the request with Rwalk message
 func (req *SrvReq) RespondRwalk(wqids []Qid) {
+	if req.responded() {
+		return
+	}
+
 	err := PackRwalk(req.Rc, wqids)
 	if err != nil {
 		req.RespondError(err)
@@ -106,6 +139,10 @@ func (req *SrvReq) RespondRwalk(wqids []Qid) {
 
 // Respond to the request with Ropen message
 func (req *SrvReq) RespondRopen(qid *Qid, iounit uint32) {
+	if req.responded() {
+		return
+	}
+
 	err := PackRopen(req.Rc, qid, iounit)
 	if err != nil {
 		req.RespondError(err)
@@ -116,6 +153,10 @@ func (req *SrvReq) RespondRopen(qid *Qid, iounit uint32) {
 
 // Respond to the request with Rcreate message
 func (req *SrvReq) RespondRcreate(qid *Qid, iounit uint32) {
+	if req.responded() {
+		return
+	}
+
 	err := PackRcreate(req.Rc, qid, iounit)
 	if err != nil {
 		req.RespondError(err)
@@ -126,6 +167,10 @@ func (req *SrvReq) RespondRcreate(qid *Qid, iounit uint32) {
 
 // Respond to the request with Rread message
 func (req *SrvReq) RespondRread(data []byte) {
+	if req.responded() {
+		return
+	}
+
 	err := PackRread(req.Rc, data)
 	if err != nil {
 		req.RespondError(err)
@@ -136,6 +181,10 @@ func (req *SrvReq) RespondRread(data []byte) {
 
 // Respond to the request with Rwrite message
 func (req *SrvReq) RespondRwrite(count uint32) {
+	if req.responded() {
+		return
+	}
+
 	err := PackRwrite(req.Rc, count)
 	if err != nil {
 		req.RespondError(err)
@@ -146,6 +195,10 @@ func (req *SrvReq) RespondRwrite(count uint32) {
 
 // Respond to the request with Rclunk message
 func (req *SrvReq) RespondRclunk() {
+	if req.responded() {
+		return
+	}
+
 	err := PackRclunk(req.Rc)
 	if err != nil {
 		req.RespondError(err)
@@ -156,6 +209,10 @@ func (req *SrvReq) RespondRclunk() {
 
 // Respond to the request with Rremove message
 func (req *SrvReq) RespondRremove() {
+	if req.responded() {
+		return
+	}
+
 	err := PackRremove(req.Rc)
 	if err != nil {
 		req.RespondError(err)
@@ -166,6 +223,10 @@ func (req *SrvReq) RespondRremove() {
 
 // Respond to the request with Rstat message
 func (req *SrvReq) RespondRstat(st *Dir) {
+	if req.responded() {
+		return
+	}
+
 	err := PackRstat(req.Rc, st, req.Conn.Dotu)
 	if err != nil {
 		req.RespondError(err)
@@ -176,6 +237,10 @@ func (req *SrvReq) RespondRstat(st *Dir) {
 
 // Respond to the request with Rwstat message
 func (req *SrvReq) RespondRwstat() {
+	if req.responded() {
+		return
+	}
+
 	err := PackRwstat(req.Rc)
 	if err != nil {
 		req.RespondError(err)
